@@ -52,11 +52,29 @@ def _rebound_names(root: ast.AST, names: Collection[str]) -> Collection[str]:
     return rebound
 
 
-def _is_collection(node: ast.AST, root: ast.AST, *, strings: bool) -> bool:
+def _is_immutable_collection(node: ast.AST, root: ast.AST, *, strings: bool) -> bool:
+    """Whether node surely is a tuple, range or frozenset (or a string): a collection for good"""
+    if isinstance(node, ast.Tuple):
+        return True
+
+    if strings and core.match_template(node, ast.Constant(value=(str, bytes))):
+        return True
+
+    if core.match_template(node, ast.Call(func=ast.Name(id=("range", "tuple", "frozenset")))):
+        return not _rebound_names(root, (node.func.id,))
+
+    return False
+
+
+def _is_collection(
+    node: ast.AST, root: ast.AST, *, strings: bool, mutable_names: bool = True
+) -> bool:
     """Whether node surely is a builtin collection: a list, tuple, set, dict or range
 
     These can be iterated over any number of times, and iterating over them does nothing else. A
-    string is such a collection, unless it matters that its elements are strings again."""
+    string is such a collection, unless it matters that its elements are strings again. A variable
+    that only ever holds collections is one as well. Unless mutable_names is true they must be
+    tuples, ranges or frozensets: a list that has a name is an object that others can change."""
     displays = (ast.List, ast.Tuple, ast.Set, ast.Dict, ast.ListComp, ast.SetComp, ast.DictComp)
     if isinstance(node, displays):
         return True
@@ -91,7 +109,9 @@ def _is_collection(node: ast.AST, root: ast.AST, *, strings: bool) -> bool:
         bool(values)
         and len(values) == sum(1 for _ in core.walk(root, bindings))
         and all(
-            not isinstance(value, ast.Name) and _is_collection(value, root, strings=strings)
+            not isinstance(value, ast.Name)
+            and _is_collection(value, root, strings=strings)
+            and (mutable_names or _is_immutable_collection(value, root, strings=strings))
             for value in values
     ))
 
@@ -164,8 +184,11 @@ def remove_redundant_iter(source: str) -> str:
     for node in core.walk(root, template):
         # iter() is what the loop does anyway. list() and tuple() evaluate everything before the
         # first iteration: an iterable that does something when it is iterated over (a generator,
-        # a file, ...) would be interleaved with the loop.
-        if node.iter.func.id == "iter" or _is_collection(node.iter.args[0], root, strings=True):
+        # a file, ...) would be interleaved with the loop. A list, set or dict that has a name is
+        # iterated over as a copy because the loop changes it: 'for k in list(d): del d[k]'.
+        if node.iter.func.id == "iter" or _is_collection(
+            node.iter.args[0], root, strings=True, mutable_names=False
+        ):
             yield node.iter, node.iter.args[0]
 
 
